@@ -17,6 +17,7 @@ uint64_t mv_now(void);                  // virtual clock, microseconds
 void mv_register_deadline(uint64_t abs_us);   // a deadline a TIME deviation may jump to
 void mv_tso(int on);                    // store-buffer mode: a non-seq_cst atomic store may stay in a one-entry per-thread store buffer
                                         // (ENV deviation, cost 1) until the thread's next store / RMW / fence / plain write / blocking
+void mv_plain_region(const void* p, size_t n);   // plain (non-atomic) accesses into [p,p+n) become scheduling points too (lock-free structures)
 void mv_switch_points(int on);          // the guarded context-switch hook is a scheduling point (default on)
 void mv_time_deviations(int on);        // offer "next deadline passes now" at scheduling points (default off)
 void mv_poison(const void* p, size_t n);      // any later instrumented access to [p,p+n) is a violation
